@@ -126,9 +126,11 @@ def run(ctx):
                 break
     # RAWCHARS: an escape that decodes to a metacharacter acts as one - in translate() exactly as in the matcher
     raw_pats = ['\\x7ba,b\\x7d', 'x\\174y', 'x\\u007cy', '\\x7b1..3\\x7d', 'src/\\x7bfoo,bar\\x7d.py', '\\x21a', 'a\\x2a', '\\x5bab\\x5d', '\\x40(a\\x7cb)',
-                '\\N{LEFT CURLY BRACKET}a,b\\N{RIGHT CURLY BRACKET}', '{a,\\x62}', 'p\\x7cq\\x7cr']
+                '\\N{LEFT CURLY BRACKET}a,b\\N{RIGHT CURLY BRACKET}', '{a,\\x62}', 'p\\x7cq\\x7cr',
+                # the internal `(?#)` marker written by the user inside a bracket (regression, fixed f1e8f80)
+                '[(?#)]', '[a(?#)]', '[!(?#)]', 'x[(?#)]y', '@([(?#)])', '[#-(?#)]']
     raw_names = ['a', 'b', '{a,b}', 'x|y', 'x', 'y', 'a,b', '1', '2', '{1..3}', 'src/foo.py', 'src/bar.py', 'src/{foo,bar}.py', '!a', 'a*', 'ab', '[ab]', '@(a|b)',
-                 'p', 'q', 'r', 'p|q|r']
+                 'p', 'q', 'r', 'p|q|r', '(', '?', '#', ')', 'x(y', 'x#y', 'xay', '$', '%']
     for rp in raw_pats:
         for api in (Fm, Gm):
             for extra in (0, api.BRACE, api.SPLIT, api.BRACE | api.SPLIT, api.EXTMATCH | api.BRACE | api.SPLIT, api.NEGATE | api.BRACE):
